@@ -257,7 +257,10 @@ func (g *PipeGen) Op(kind string, s Schema, joinDepth int) (*Op, Schema) {
 			t := Ty(g.Rng.Intn(3))
 			x := g.expr(s, t)
 			if g.Rng.Intn(4) == 0 && !(x.K == "name" || x.K == "paren") && !looksImplicit(ns) {
-				// unnamed: the column is called like its source text
+				// unnamed: the column is called like its source text (parentheses included)
+				if (len(ns)+len(x.Kids)+i)%3 == 0 {
+					x = Paren(x)
+				}
 				op.Cols = append(op.Cols, Col{X: x})
 				ns = append(ns, SCol{Ident{Name: "\x00implicit"}, t, true})
 				continue
@@ -341,6 +344,9 @@ func (g *PipeGen) Op(kind string, s Schema, joinDepth int) (*Op, Schema) {
 				x = Call("count")
 			}
 			if g.Rng.Intn(3) == 0 && !looksImplicit(ns) {
+				if (len(ns)+i+na)%3 == 0 {
+					x = Paren(x)
+				}
 				op.Cols = append(op.Cols, Col{X: x})
 				ns = append(ns, SCol{Ident{Name: "\x00implicit"}, TInt, true})
 			} else {
@@ -662,7 +668,13 @@ func pickV(rng *rand.Rand, t Ty, nullPct int) val.V {
 // id), ties and NULLs.
 func DB(rng *rand.Rand) map[string]*RTable {
 	db := map[string]*RTable{}
-	for name, sch := range BaseSchemas {
+	var tnames []string
+	for name := range BaseSchemas {
+		tnames = append(tnames, name)
+	}
+	sort.Strings(tnames)
+	for _, name := range tnames {
+		sch := BaseSchemas[name]
 		t := &RTable{}
 		for _, c := range sch {
 			t.Cols = append(t.Cols, c.Name.Name)
